@@ -208,20 +208,15 @@ public:
               this->deallocate();
               exchange_memory(*this, img);
           } else {
-              // cannot propagate the allocator and cannot adopt the memory
-              if (img._memory)
-              {
-                  allocate_and_copy(img.dimensions(), img._view);
-                  destruct_pixels(img._view);
-                  img.deallocate();
-                  img._view = image::view_t{};
-              }
-              else
-              {
-                  destruct_pixels(this->_view);
-                  this->deallocate();
-                  this->_view = view_t{};
-              }
+              // cannot propagate the allocator and cannot adopt the memory:
+              // copy the pixels into storage obtained from our own allocator, then empty the source
+              image tmp(img._view, img._align_in_bytes, _alloc);
+              swap_all(tmp); // tmp now owns our previous storage and releases it
+              destruct_pixels(img._view);
+              img.deallocate();
+              img._memory = nullptr;
+              img._allocated_bytes = 0;
+              img._view = view_t{};
           }
       }
 
